@@ -13,7 +13,7 @@ Line-protocol driver for C11 (Model/Chunks.lean).
   fixij nz ny nx            fixij of the index-valued block
   sel  r:itmin:itmax,... its   readOrder (restart = -1): `it:restart` pairs
   sel2 usechk restart|- cats its   Model/Restarts.readETData around a reader that returns the restart number:
-      cats = r:lo-hi|-:c1+c2+..|-|0 , comma separated (0 = empty checkpoint list); -> `it:restart` pairs, `err`
+      cats = r:lo-hi|-:c1+c2+..|-|e , comma separated (e = empty checkpoint list); -> `it:restart` pairs, `err`
   flat oldIt table table ...   Model/Restarts.flattenTables; table = r:it+it+..:key=v+v+..;key=v+..
       -> `ok it=..|key=..|key=..`, `err`
   ckpt rl its vars file file ...   Model/Checkpoint.readCheckpoints; vars = aurel names (comma separated);
@@ -78,7 +78,7 @@ def parseCat (s : String) : Option Cat :=
       match rg.splitOn "-" with
       | [a, b] => do pure (some ((← a.toNat?), (← b.toNat?)))
       | _ => none
-    let ck ← if ck == "-" then some none else if ck == "0" then some (some []) else (nats ck "+").map some
+    let ck ← if ck == "-" then some none else if ck == "e" then some (some []) else (nats ck "+").map some
     pure ⟨r, rg, ck⟩
   | _ => none
 
